@@ -2,8 +2,54 @@
   Proofs.C08Step — a failed single-document write ends in a state "near" the one it started in.
 -/
 import Proofs.C08Near
+import Proofs.C05Inv
 namespace MongoModel.Proofs.C08Lemmas
 open MongoModel MongoModel.Spec
+open MongoModel.Proofs.C05Lemmas (insertDoc_eq insertCore)
+
+/-! ### a rejected insert that had already stored its document met a (unique) index -/
+
+theorem setDoc_indexes (c : Coll) (k d : Val) : (c.setDoc k d).indexes = c.indexes := by
+  unfold Coll.setDoc; split <;> rfl
+
+theorem ensureUniques_no_index (now : Int) (c : Coll) (d : Val) (h : c.indexes = []) :
+    ensureUniques now c d = .ok c := by
+  unfold ensureUniques; rw [h]; rfl
+
+theorem insertCore_reject (now : Int) (c0 : Coll) (fs1 : Fields) (e : Err)
+    (h : insertCore now c0 fs1 = .error e)
+    (hs : (match storeKey (match patchDT (.doc fs1) with
+              | .doc ds => (dget "_id" ds).getD .null | _ => .null), expire now c0 with
+            | .ok key, .ok c1 => !c1.hasKey key
+            | _, _ => false) = true) : c0.indexes ≠ [] := by
+  intro hx
+  unfold insertCore at h
+  simp only [patchDT, patch, bind, Except.bind, pure, Except.pure] at h hs
+  split at hs
+  · rename_i key c1 hk he
+    rw [hk] at h
+    simp only [he] at h
+    simp only [Bool.not_eq_true'] at hs
+    have hi : (c1.storeDoc key (.doc (patchFields fs1))).indexes = [] := by
+      rw [storeDoc_indexes, setDoc_indexes, (expire_fields now c0 c1 he).1, hx]
+    rw [hs, ensureUniques_no_index now _ _ hi] at h
+    simp at h
+  · simp at hs
+
+/-- a rejected insert that got as far as storing its document was rejected by the uniqueness
+    check, so the collection has an index -/
+theorem stored_reject_has_index (now : Int) (c : Coll) (d : Val) (e : Err)
+    (hi : insertDoc now c d = .error e) (hs : insertStored now c d = true) : c.indexes ≠ [] := by
+  cases d with
+  | doc fs =>
+    rw [insertDoc_eq] at hi
+    unfold insertStored at hs
+    by_cases hh : dhas "_id" fs = true
+    · simp only [hh, if_true] at hi hs
+      exact insertCore_reject now c fs e hi hs
+    · simp only [hh, Bool.false_eq_true, if_false] at hi hs
+      exact insertCore_reject now { c with nextOid := c.nextOid + 1 } _ e hi hs
+  | _ => simp [insertStored] at hs
 
 theorem near_pre (now : Int) (c c2 : Coll) (spec : Val)
     (h : (do
@@ -66,10 +112,20 @@ theorem near_applyUpdate (cfg : Cfg) (now : Int) (c c' : Coll) (f u : Val) (up :
               rcases this with rfl | rfl
               · exact n2
               · exact n2.bump _
-            split at h
-            · cases h; exact h4
-            · cases h
+            cases hb : upsertDoc (Val.doc ss) (Val.doc dfs) nowV ss idv with
+            | error e' => rw [hb] at h; cases h; exact h4
+            | ok built =>
+              rw [hb] at h
+              dsimp only at h
+              cases hi : insertDoc now c4 built with
+              | error e' =>
+                rw [hi] at h
+                cases h
+                exact h4.mark _ (fun hst =>
+                  (h4.indexes.1 ▸ stored_reject_has_index now c4 built _ hi hst))
+              | ok p => rw [hi] at h; cases h
   · cases h; exact Near.refl _ _
+
 theorem near_delete (now : Int) (c c' : Coll) (f : Val) (multi : Bool) (e : Err)
     (h : deleteColl now c f multi = (c', .error e)) : c' = c := by
   unfold deleteColl at h
@@ -87,12 +143,21 @@ theorem step_insert_one (cfg : Cfg) (now : Int) (c : Coll) (d : Val) :
      | .doc _ =>
        (match insertDoc now c d with
         | .ok (c', id) => (c', .val id)
-        | .error e =>
-          let c0 : Coll := match d with
-            | .doc fs => if dhas "_id" fs then c else { c with nextOid := c.nextOid + 1 }
-            | _ => c
-          ((match expire now c0 with | .ok x => x | .error _ => c0), .err e))
+        | .error e => (insertRejected now c d, .err e))
      | _ => (c, .err .typeErr)) := rfl
+
+/-- what a rejected insert leaves is near where it started -/
+theorem near_insertRejected (now : Int) (c : Coll) (d : Val) (e : Err)
+    (hi : insertDoc now c d = .error e) : Near now c (insertRejected now c d) := by
+  have hb := stored_reject_has_index now c d e hi
+  unfold insertRejected
+  refine Near.mark (Near.expire' ?_) _ hb
+  clear hi hb
+  split
+  · split
+    · exact Near.refl _ _
+    · exact (Near.refl _ _).bump _
+  · exact Near.refl _ _
 
 theorem near_insert_one (cfg : Cfg) (now : Int) (c : Coll) (d : Val)
     (_h : (stepColl cfg now c (.arr [.str "insert_one", d])).2.isErr = true) :
@@ -102,14 +167,7 @@ theorem near_insert_one (cfg : Cfg) (now : Int) (c : Coll) (d : Val)
   · rename_i fs
     cases hi : insertDoc now c (.doc fs) with
     | ok r => simp [hi, Out.isErr] at _h
-    | error e =>
-      dsimp only
-      have h0 : Near now c (if dhas "_id" fs = true then c
-          else { c with nextOid := c.nextOid + 1 }) := by
-        split
-        · exact Near.refl _ _
-        · exact (Near.refl _ _).bump _
-      exact h0.expire'
+    | error e => exact near_insertRejected now c _ e hi
   · exact Near.refl _ _
 
 theorem near_update_like (cfg : Cfg) (now : Int) (c : Coll) (f u : Val) (up : Bool) (v : R Unit)
